@@ -289,6 +289,15 @@ func (p *Path) Calls(callee string) []*Event {
 		if e.Kind == "call" && e.Callee == callee {
 			out = append(out, e)
 		}
+		// c.writeCloseCtx(ctx, code, reason) is writeClose bounded by the caller's context: it counts as writeClose(code, reason);
+		// the context argument is kept in Val
+		if callee == "Conn.writeClose" && e.Kind == "call" && e.Callee == "Conn.writeCloseCtx" && len(e.Args) == 4 {
+			ne := *e
+			ne.Callee = "Conn.writeClose"
+			ne.Args = []AV{e.Args[0], e.Args[2], e.Args[3]}
+			ne.Val = e.Args[1]
+			out = append(out, &ne)
+		}
 		// c.writeError(code, err) is c.writeClose(code, err.Error()): the inlined spelling counts as the call
 		if callee == "Conn.writeError" && e.Kind == "call" && e.Callee == "Conn.writeClose" && len(e.Args) == 3 {
 			if x, ok := stripConvAll(e.Args[2]).(*Expr); ok && x.Op == "call" && strings.HasPrefix(x.Name, "invoke error.Error@") && len(x.Args) >= 1 {
